@@ -2,8 +2,10 @@
 from __future__ import annotations
 
 import ast
+import re
 
 from .. import anchors as A
+from ..consteval import try_fold
 from ..model import AnalysisError, FuncInfo, Project, call_name, kwarg, walk_local
 from ..paths import PState, PathAnalysis, run_paths, subst_text
 from ..report import Report
@@ -59,6 +61,12 @@ def check(P: Project, R: Report) -> None:
         R.ob("R1", "exactly one stdin write per delivered message", len(sends) == 1, f"{rel}:{loop.lineno}", f"{len(sends)} writes on one iteration path")
         payload, lits = sends[0][len("send:"):].split("||", 1)
         lits = set(lits.split("&&")) if lits else set()
+        # the frame may be bound to a local first (`line = f"{s}\n".encode(); … send(line)`): read its definition
+        for _ in range(3):
+            d_ = an.defs.get(payload)
+            if d_ is None or not isinstance(d_[1], ast.AST) or d_[0].startswith(("iter:", "enter:", "unpack:", "caught", "aug:")):
+                break
+            payload = d_[0]
         try:
             pn = ast.parse(payload, mode="eval").body
         except SyntaxError:
@@ -106,7 +114,24 @@ def check(P: Project, R: Report) -> None:
                 detail = f"serialiser called with indent: `{ast.unparse(c)[:70]}`"
         elif inner == msg:
             # raw pass-through of the caller's string: only on a path that excluded CR and LF
-            if f"'\\n' not in {msg}" in lits and f"'\\r' not in {msg}" in lits:
+            def _excludes_breaks() -> bool:
+                if f"'\\n' not in {msg}" in lits and f"'\\r' not in {msg}" in lits:
+                    return True
+                # set form: `BREAKS.isdisjoint(msg)` / `not (set(msg) & BREAKS)` with BREAKS ⊇ {LF, CR}
+                for l in lits:
+                    m_ = re.fullmatch(r"([A-Za-z_][\w.]*)\.isdisjoint\(" + re.escape(msg) + r"\)", l)
+                    if m_:
+                        v = try_fold(P, wr.module, ast.parse(m_.group(1), mode="eval").body)
+                        if isinstance(v, (set, frozenset, list, tuple, str)) and {"\n", "\r"} <= set(v):
+                            return True
+                    m_ = re.fullmatch(r"not any\(\((\w+) in " + re.escape(msg) + r" for \1 in ([A-Za-z_][\w.]*)\)\)", l)
+                    if m_:
+                        v = try_fold(P, wr.module, ast.parse(m_.group(2), mode="eval").body)
+                        if isinstance(v, (set, frozenset, list, tuple, str)) and {"\n", "\r"} <= set(v):
+                            return True
+                return False
+
+            if _excludes_breaks():
                 kind = "str without CR/LF"
             else:
                 detail = f"caller-supplied str reaches the frame with literals {sorted(l[:40] for l in lits)}"
